@@ -20,7 +20,9 @@ import (
 	"github.com/insomniacslk/dhcp/dhcpv4"
 	"github.com/insomniacslk/dhcp/dhcpv6"
 
+	"verifmc/checks/c16"
 	"verifmc/checks/optplug"
+	"verifmc/conc"
 	"verifmc/ev"
 	"verifmc/pkt"
 	"verifmc/reg"
@@ -436,6 +438,8 @@ func run(r *ev.Run) {
 	r.Rule("Binding run through the real server.Start with loopback sockets, both protocols: a request sent from inside the set-up function of each of two configured marker plugins (the chain is not complete yet) must stay unanswered; after Start returns the same request comes back with both markers in configured order.")
 	startBinding(r, 6)
 	startBinding(r, 4)
+	r.Rule("E2: a retransmission (the identical datagram twice) through the real Serve loop under all schedules up to the preemption bound: every copy runs through the whole chain and is answered, as in a serial order.")
+	c16.RunSpecs(r, "C13", func(sp conc.Spec) bool { return strings.Contains(sp.Name, "S1d-") })
 }
 
 func replay(r *ev.Run, raw json.RawMessage) {
